@@ -1,35 +1,97 @@
 (* Proofs/DiskGeoProofs.v — geometry, load/save, flavours (C11).  TOP statements are fixed. *)
 From Coq Require Import ZArith List Bool Lia ZifyBool.
 Require Import PyBase GenDisk DiskFacts Disk ThomsonDos PyFacts DiskDefs.
+Require Import DiskFactsGeo DGeoLists DGeoSides DGeoInject.
 Import ListNotations.
 Open Scope Z_scope.
 Ltac Zify.zify_post_hook ::= Z.to_euclidean_division_equations.
+
+(* ---------- helpers for the load/save theorems ---------- *)
+Lemma save_loaded_sd b (G : list Z -> list Z) raw k :
+  (forall s, save_sector b (firstn 256 s) = G s) ->
+  save_image b (map (load_side false) (chunks (512 * 1280) k raw)) = flat_map G (chunks 512 (k * 1280) raw).
+Proof.
+  intros HG. rewrite save_image_is, g_flat_map_map.
+  rewrite (g_flat_map_ext_Forall _ (fun c => flat_map G (chunks 512 1280 c))).
+  - rewrite <- (g_flat_map_flat_map G (chunks 512 1280)). now rewrite chunks_chunks.
+  - apply Forall_forall. intros c _. rewrite save_load_side_sd.
+    apply g_flat_map_ext_Forall. apply Forall_forall. intros s _. apply HG.
+Qed.
+
+Lemma save_image_flat b img : save_image b img = flat_map (save_sector b) (flat_map (fun sd : side => sd) img).
+Proof. rewrite save_image_is. symmetry. apply g_flat_map_flat_map. Qed.
+
+Lemma all_sectors_256 img : geo_image img -> Forall (fun s : sector => length s = 256%nat) (flat_map (fun sd : side => sd) img).
+Proof.
+  induction 1 as [|sd img [_ Hsd] _ IH]; cbn [flat_map]; [constructor|].
+  apply Forall_app. split; assumption.
+Qed.
 
 (* TOP: a payload assignment of ANY length keeps the sector's size: the first min(n,256) bytes
    are replaced, the rest kept *)
 Theorem set_payload_exact : forall (old v : list Z), length old = 256%nat ->
   set_payload old v = firstn (Nat.min (length v) 256) v ++ skipn (Nat.min (length v) 256) old /\
   length (set_payload old v) = 256%nat.
-Admitted.
+Proof.
+  intros old v H. split; [apply set_payload_is|now apply set_payload_length].
+Qed.
 
 (* TOP: loading a valid emulator image (1, 2 or 4 sides) and saving it is the identity *)
 Theorem load_save_fd : forall (raw : list Z) (n : Z),
   (n = 1 \/ n = 2 \/ n = 4) -> zlen raw = n * 327680 ->
   exists img, load_image true raw = Ok img /\ save_image true img = raw /\
               length img = Z.to_nat n /\ geo_image img.
-Admitted.
+Proof.
+  intros raw n Hn Hlen.
+  assert (Hne : raw <> []). { intros ->. unfold zlen in Hlen. cbn [length] in Hlen. lia. }
+  assert (HL : length raw = (256 * 1280 * Z.to_nat n)%nat) by (unfold zlen in Hlen; lia).
+  exists (map (load_side true) (chunks (slot true * 1280) (Z.to_nat n) raw)).
+  split; [apply load_image_ok; [exact Hne|rewrite size_of_side_fd; exact Hlen|exact Hn]|].
+  split; [|split].
+  - rewrite save_image_is, g_flat_map_map.
+    rewrite (g_flat_map_ext_Forall _ (firstn (256 * 1280))).
+    + unfold slot. rewrite flat_firstn_chunks, <- HL. apply firstn_all.
+    + apply Forall_forall. intros c _. apply save_load_side_fd_fd.
+  - now rewrite map_length, chunks_length.
+  - apply geo_loaded. unfold slot. lia.
+Qed.
 
 (* TOP: loading a 4-sided SDDrive image and saving it keeps every payload and rewrites the padding as FF *)
 Theorem load_save_sd : forall raw : list Z,
   zlen raw = 4 * 655360 ->
   exists img, load_image false raw = Ok img /\ save_image false img = normalise_padding raw /\
               save_image true img = payloads_of raw /\ length img = 4%nat /\ geo_image img.
-Admitted.
+Proof.
+  intros raw Hlen.
+  assert (Hne : raw <> []). { intros ->. unfold zlen in Hlen. cbn [length] in Hlen. lia. }
+  assert (HL : length raw = (512 * (4 * 1280))%nat) by (unfold zlen in Hlen; lia).
+  exists (map (load_side false) (chunks (slot false * 1280) (Z.to_nat 4) raw)).
+  split; [apply load_image_ok; [exact Hne|rewrite size_of_side_sd; exact Hlen|reflexivity]|].
+  change (Z.to_nat 4) with 4%nat. unfold slot.
+  split; [|split; [|split]].
+  - rewrite (save_loaded_sd false (fun s => firstn 256 s ++ repeat 255 256)).
+    + unfold normalise_padding. rewrite (chunk_chunks 512 (4 * 1280)) by lia. reflexivity.
+    + intros s. unfold save_sector. now rewrite nat_pad.
+  - rewrite (save_loaded_sd true (firstn 256)) by reflexivity.
+    unfold payloads_of. rewrite (chunk_chunks 512 (4 * 1280)) by lia. reflexivity.
+  - now rewrite map_length, chunks_length.
+  - apply (geo_loaded false). unfold slot. lia.
+Qed.
 
 (* TOP: saving an image and loading it back is the identity too *)
 Theorem save_load : forall (is_fd : bool) (img : image),
   geo_image img -> length img = 4%nat -> load_image is_fd (save_image is_fd img) = Ok img.
-Admitted.
+Proof.
+  intros b img Hg Hl.
+  pose proof (save_image_length b img Hg) as HL. rewrite Hl in HL.
+  pose proof (slot_pos b) as Hs.
+  assert (Hne : save_image b img <> []).
+  { intros E. rewrite E in HL. cbn [length] in HL. lia. }
+  rewrite (load_image_ok b _ 4 Hne).
+  - replace (Z.to_nat 4) with (length img) by (rewrite Hl; reflexivity). now rewrite chunks_save_image.
+  - rewrite z_side. unfold zlen. rewrite HL. lia.
+  - destruct b; [right; right; reflexivity|reflexivity].
+Qed.
 
 (* TOP: the .sd of an image is its .fd with 256 bytes FF after every sector; lengths are fixed *)
 Theorem save_flavours : forall img : image, geo_image img ->
@@ -37,7 +99,42 @@ Theorem save_flavours : forall img : image, geo_image img ->
   normalise_padding (save_image false img) = save_image false img /\
   zlen (save_image true img) = Z.of_nat (length img) * 327680 /\
   zlen (save_image false img) = Z.of_nat (length img) * 655360.
-Admitted.
+Proof.
+  intros img Hg.
+  pose proof (all_sectors_256 img Hg) as Hall.
+  assert (Hslots : Forall (fun s => length (save_sector false s) = 512%nat) (flat_map (fun sd : side => sd) img)).
+  { eapply g_Forall_impl2; [|exact Hall]. intros s. apply (save_sector_length false). }
+  assert (Hchunk : chunk 512 (S (length (save_image false img))) (save_image false img)
+                   = map (save_sector false) (flat_map (fun sd : side => sd) img)).
+  { rewrite (save_image_flat false). apply chunk_flat_map; [lia|exact Hslots|].
+    rewrite (g_flat_map_length_const _ 512 _ Hslots). lia. }
+  split; [|split; [|split]].
+  - unfold payloads_of. rewrite Hchunk, g_flat_map_map, (save_image_flat true).
+    apply g_flat_map_ext_Forall. eapply g_Forall_impl2; [|exact Hall].
+    intros s Hs. cbv beta. now rewrite firstn_save_sector.
+  - unfold normalise_padding. rewrite Hchunk, g_flat_map_map, (save_image_flat false).
+    apply g_flat_map_ext_Forall. eapply g_Forall_impl2; [|exact Hall].
+    intros s Hs. cbv beta. rewrite firstn_save_sector by exact Hs.
+    unfold save_sector. now rewrite nat_pad.
+  - unfold zlen. rewrite save_image_length by exact Hg. unfold slot. lia.
+  - unfold zlen. rewrite save_image_length by exact Hg. unfold slot. lia.
+Qed.
+
+(* ---------- the blank image of create ---------- *)
+Lemma load_image_blank b : load_image b [] = Ok (repeat blank_side 4).
+Proof. unfold load_image. destruct b; [rewrite blank_sides_fd_4|]; reflexivity. Qed.
+
+Lemma geo_blank_side : geo blank_side.
+Proof.
+  unfold blank_side. split.
+  - now rewrite repeat_length, sps_eq.
+  - apply Forall_forall. intros s Hs. apply repeat_spec in Hs. subst s.
+    unfold blank_sector. now rewrite repeat_length, nat_payload.
+Qed.
+Lemma geo_blank_image : geo_image (repeat blank_side 4).
+Proof.
+  apply Forall_forall. intros sd Hsd. apply repeat_spec in Hsd. subst sd. exact geo_blank_side.
+Qed.
 
 (* TOP: the two tools build the same disk from the same sources: same report, same log, and the
    same image, saved in the two flavours *)
@@ -49,14 +146,33 @@ Theorem create_same_disk : forall (v : bool) (fs : fsmap) (arch1 arch2 : list Z)
    exists img, geo_image img /\ length img = 4%nat /\
      d_effects (disk_create true v fs arch1 srcs) = [WriteFile arch1 (save_image true img)] /\
      d_effects (disk_create false v fs arch2 srcs) = [WriteFile arch2 (save_image false img)]).
-Admitted.
+Proof.
+  intros v fs a1 a2 srcs. unfold disk_create.
+  rewrite !load_image_blank.
+  destruct (inject_perform_cases v true fs (repeat blank_side 4) srcs geo_blank_image)
+    as [[t [e H]]|[t [img' [lg [Hg [Hl [_ H]]]]]]].
+  - rewrite (H true a1), (H false a2). unfold crashed. cbn [d_text d_log d_status d_effects].
+    split; [reflexivity|]. split; [reflexivity|]. split; [reflexivity|]. left. split; reflexivity.
+  - rewrite (H true a1), (H false a2). cbn [d_text d_log d_status d_effects].
+    split; [reflexivity|]. split; [reflexivity|]. split; [reflexivity|]. right. exists img'.
+    rewrite repeat_length in Hl.
+    split; [exact Hg|]. split; [exact Hl|]. split; reflexivity.
+Qed.
 
 (* TOP: whatever is stored, the archive's length and sector boundaries never move *)
 Theorem add_geometry_fixed : forall (is_fd v : bool) (fs : fsmap) (arch raw : list Z) (srcs : list (list Z)) (img0 : image) (p c : list Z),
   load_image is_fd raw = Ok img0 -> geo_image img0 ->
   In (WriteFile p c) (d_effects (disk_add is_fd v fs arch raw srcs)) ->
   p = arch /\ exists img, c = save_image is_fd img /\ geo_image img /\ length img = length img0.
-Admitted.
+Proof.
+  intros is_fd v fs arch raw srcs img0 p c Hload Hg Hin. unfold disk_add in Hin. rewrite Hload in Hin.
+  destruct (inject_perform_cases v false fs img0 srcs Hg)
+    as [[t [e H]]|[t [img' [lg [Hg' [Hl [_ H]]]]]]]; rewrite H in Hin.
+  - unfold crashed in Hin. cbn [d_effects In] in Hin. contradiction.
+  - cbn [d_effects In] in Hin. destruct Hin as [E|E]; [|contradiction].
+    inversion E; subst. split; [reflexivity|]. exists img'.
+    split; [reflexivity|]. split; [exact Hg'|exact Hl].
+Qed.
 
 (* TOP: adding nothing to a valid 4-sided emulator image rewrites it unchanged *)
 Theorem noop_add_identity_fd : forall (v : bool) (fs : fsmap) (arch raw : list Z) (img : image),
@@ -64,4 +180,20 @@ Theorem noop_add_identity_fd : forall (v : bool) (fs : fsmap) (arch raw : list Z
   Forall (fun sd => forallb st_valid (fat sd) = true) img ->
   d_status (disk_add true v fs arch raw []) = 0 /\
   d_effects (disk_add true v fs arch raw []) = [WriteFile arch raw].
-Admitted.
+Proof.
+  intros v fs arch raw img Hlen Hload Hvalid.
+  destruct (load_save_fd raw 4 (or_intror (or_intror eq_refl)) Hlen) as [img' [Hl' [Hs [Hn Hg]]]].
+  rewrite Hload in Hl'. inversion Hl'; subst img'.
+  unfold disk_add. rewrite Hload.
+  destruct (inject_perform_nop true v fs arch img Hn (all_usage_ok img Hvalid)) as [t [lg H]].
+  rewrite H. cbn [d_status d_effects]. rewrite Hs. split; reflexivity.
+Qed.
+
+Print Assumptions set_payload_exact.
+Print Assumptions load_save_fd.
+Print Assumptions load_save_sd.
+Print Assumptions save_load.
+Print Assumptions save_flavours.
+Print Assumptions create_same_disk.
+Print Assumptions add_geometry_fixed.
+Print Assumptions noop_add_identity_fd.
